@@ -96,3 +96,63 @@ func TestGuardOrder(t *testing.T) {
 		t.Fatalf("defer lockPod not found")
 	}
 }
+
+func TestSkipsNonPodKeys(t *testing.T) {
+	good := `func f() error {
+	for i := range all {
+		fip := all[i]
+		keyObj := util.ParseKey(fip.Key)
+		if keyObj.PodName == "" {
+			continue
+		}
+		meta.allocatedIPs = append(meta.allocatedIPs, resyncObj{keyObj: keyObj, fip: fip.FloatingIP})
+	}
+	return nil
+}`
+	p, b := parseBody(t, good)
+	if !skipsNonPodKeys(p, b) {
+		t.Fatalf("skip not recognised")
+	}
+	// the skip comes after the append
+	p, b = parseBody(t, `func f() error {
+	for i := range all {
+		fip := all[i]
+		keyObj := util.ParseKey(fip.Key)
+		meta.allocatedIPs = append(meta.allocatedIPs, resyncObj{keyObj: keyObj, fip: fip.FloatingIP})
+		if keyObj.PodName == "" {
+			continue
+		}
+	}
+	return nil
+}`)
+	if skipsNonPodKeys(p, b) {
+		t.Fatalf("late skip accepted")
+	}
+	// the if does not skip
+	p, b = parseBody(t, `func f() error {
+	for i := range all {
+		fip := all[i]
+		keyObj := util.ParseKey(fip.Key)
+		if keyObj.PodName == "" {
+			log("no pod name")
+		}
+		meta.allocatedIPs = append(meta.allocatedIPs, resyncObj{keyObj: keyObj, fip: fip.FloatingIP})
+	}
+	return nil
+}`)
+	if skipsNonPodKeys(p, b) {
+		t.Fatalf("non-skipping if accepted")
+	}
+	// no skip at all
+	p, b = parseBody(t, `func f() error {
+	for i := range all {
+		fip := all[i]
+		keyObj := util.ParseKey(fip.Key)
+		meta.allocatedIPs = append(meta.allocatedIPs, resyncObj{keyObj: keyObj, fip: fip.FloatingIP})
+	}
+	return nil
+}`)
+	if skipsNonPodKeys(p, b) {
+		t.Fatalf("missing skip accepted")
+	}
+}
